@@ -327,6 +327,23 @@ def run (ctx):
   es_ = ec_.methods.get('select') if ec_ is not None else None
   if es_ is not None:
     ctx.analysed(es_)
+    # what a ready descriptor is translated back to is the object listed in *this* call: the map from descriptor to object is
+    # written for every listed object, not only for descriptors that were not watched before (two handles of one descriptor -
+    # a socket and its fileno() - are different objects, and select() hands the ready one back by identity)
+    n_map = 0
+    for fn_ in [es_] + [x_ for x_ in q.all_nested_defs(es_.node).values()]:
+      fnode_ = fn_.node if hasattr(fn_, 'node') else fn_
+      gm_ = q.cfg_of(fnode_)
+      for t_, v_, st_, k_ in q.stores_in(fnode_, nested=False):
+        if not (isinstance(t_, ast.Subscript) and norm(t_.value) == 'self.fd_to_obj' and k_ == 'assign'): continue
+        n_map += 1
+        an_ = q.enclosing_stmt_node(gm_, st_)
+        tests_ = [t2_ for t2_, p2_, b2_ in gm_.guards(an_) if not isinstance(t2_, (ast.For, ast.AsyncFor, ast.While))] if an_ is not None else []
+        stale_ = [t2_ for t2_ in tests_ if 'fd_to_obj' not in norm(t2_)]
+        ctx.ob('R-EFFECT', es_, "the descriptor -> object map is written for every listed object", not stale_, "unconditional within the scan" if not tests_ else ("guarded by the map's own entry" if not stale_ else
+               "`%s` runs only under `%s`: a descriptor that was already watched keeps the object of an earlier call - when another task lists the same descriptor through another handle, the ready descriptor is handed back as the "
+               "old object, which is in nobody's list now (KeyError in the hub; the scheduler's select loop dies)" % (norm(st_)[:50], norm(stale_[0])[:50])), (em_, st_), 'D4')
+    ctx.stat('epoll descriptor-map writes examined', n_map)
     # the second stage, by evaluation: applying the pending changes {5: 3, 6: 1, 7: 0} to the registered masks {5: 1, 7: 4} leaves
     # {5: 3, 6: 1} - what the object remembers as registered is what epoll was last told
     ge_ = q.cfg_of(es_)
